@@ -94,6 +94,7 @@ type c18PR struct {
 	UID      string     `json:"uid"`
 	Paused   bool       `json:"paused"`
 	Deleted  bool       `json:"deleted"`
+	Inactive bool       `json:"inactive,omitempty"` // spec.desiredState Inactive (the reconcilers of the unchanged tree do not read it)
 	Family   string     `json:"family"`
 	Pkg      string     `json:"pkg"`
 	Org      *c18Org    `json:"org"` // null = unparsable reference
